@@ -295,10 +295,38 @@ def _standin(rep, tier, seed):
                 samples=[{"a": [[0, 0], [1, 1], [2, 0]], "b": [[1, 0], [2, 2], [3, 0]]}])
 
 
+def _replay_standin(prefixes):
+    """replayer: run the run-time stand-in in search mode and hand back the first failing input of the given kinds"""
+    def f(a):
+        class C:
+            def __init__(self):
+                self.v = []
+
+            def violation(self, what, sig, payload, **k):
+                self.v.append((what, sig, payload))
+
+            def note(self, *a):
+                pass
+
+            def bounded(self, *a, **k):
+                pass
+        c = C()
+        _standin(c, "quick", 0)
+        for what, sig, payload in c.v:
+            if sig.startswith(prefixes):
+                return True, payload, sig, what
+        return False, None, None, None
+    return f
+
+
 def run(rep, tier, seed):
     from contracts.c09_arith import all_contracts
     cs, table = all_contracts(tier)
-    run_contracts(rep, cs, table, tier=tier, pid="C09")
+    run_contracts(rep, cs, table, tier=tier, pid="C09", replayers=[(r"PersLandscapeApprox", _replay_standin(("grid-op",))), (r"PersLandscapeExact", _replay_standin(("exact",)))])
+    # snap_pl / lc_approx / average_approx under contract (np.interp and the landscape operators through their contracts)
+    from contracts.c09_tools import all_contracts as tool_contracts
+    for cs2, t2 in tool_contracts(tier):
+        run_contracts(rep, cs2, t2, tier=tier, pid="C09", replayers=[(r"snap_pl|lc_approx|average_approx", _replay_standin(("snap:",)))])
     for na, nb, budget in ([(3, 3, 200)] + ([(4, 3, 900), (4, 4, 1500)] if tier == "thorough" else [])):
         e2(rep, na, nb, budget)
     _standin(rep, tier, seed)
